@@ -85,6 +85,8 @@ Proof.
 Qed.
 Lemma sk_drop s : sk (st_drop s) s.
 Proof. destruct s; cbn; auto using sk_refl. Qed.
+Lemma sk_init s : sk (st_init s) s.
+Proof. destruct s; cbn; auto using sk_refl. Qed.
 
 Lemma sk_upd d f : forall s, sk (f (st_sub d s)) (st_sub d s) -> sk (st_upd d f s) s.
 Proof.
@@ -234,7 +236,7 @@ Lemma step1_refines ideal r sr o : RS r sr -> op_wf o ->
   map erase (snd (run_op1 ideal r o)) = snd (spec_run_op1 sr o).
 Proof.
   intros [HR HB HS HL] W.
-  destruct o as [h k v|h k|h k|h k|h p s0|b h|b k v|b k|b|b|b|d|d|d|h|i k|i k|i p s0|h a l|h a l|i h p s0|i n|i];
+  destruct o as [h k v|h k|h k|h k|h p s0|b h|b k v|b k|b|b|b|d|d|d|h|i k|i k|i p s0|h a l|h a l|i h p s0|i n|i|d];
     cbn [op_wf] in W.
   - (* put *) destruct W as [Wh Wk]. cbn. split; [|reflexivity].
     assert (K : sk (h_upd h (fun x => st_put x k v) (r_store r)) (r_store r))
@@ -348,6 +350,11 @@ Proof.
   - (* live iterator: next *) cbn. rewrite HL. unfold live_next.
     destruct (nth i (ss_lives sr) None); cbn; (split; [constructor; cbn; auto|reflexivity]).
   - (* live iterator: release *) cbn. split; [|reflexivity]. constructor; cbn; auto. now rewrite HL.
+  - (* init *) cbn. split; [|reflexivity].
+    assert (K : sk (st_upd d st_init (r_store r)) (r_store r)) by (apply sk_upd, sk_init).
+    constructor; cbn; auto.
+    + apply R_upd; auto. apply R_init. now apply R_sub.
+    + eapply batches_sk; eauto.
 Qed.
 
 Theorem step_refines lsafe ideal r sr o : RS r sr -> op_wf o ->
